@@ -141,6 +141,9 @@ func main() {
 		}
 		writeKeys(*repo, filepath.Join(*genDir, "GeneratedKeys.v"))
 		writeDenom(*repo, filepath.Join(*genDir, "GeneratedDenom.v"))
+		for _, sp := range storeSpecs {
+			writeStore(*repo, sp, filepath.Join(*genDir, "Generated"+strings.Title(sp.module)+"Store.v"))
+		}
 		for _, m := range []string{"wrkante", "bcnante", "entante"} {
 			writeKeeper(*repo, m, "", filepath.Join(*genDir, modules[m].keeperMod+".v"))
 		}
